@@ -27,8 +27,16 @@ pub fn base64(data: &[u8]) -> String {
 }
 
 /// What one compilation looks like from outside: Ok(hex bytes | cmr | sorted symbols) or Err(message).
-pub fn fingerprint(text: &str, debug: bool) -> String {
-    match build(text, &simfony::Arguments::default(), debug) {
+pub fn fingerprint(text: &str, debug: bool, args_text: Option<&str>) -> String {
+    use simfony::parse::ParseFromStr;
+    let args = match args_text {
+        None => simfony::Arguments::default(),
+        Some(t) => match call(|| simfony::Arguments::parse_from_str(t)) {
+            Outcome::Ok(a) => a,
+            _ => return "ARGS-UNREADABLE".to_string(),
+        },
+    };
+    match build(text, &args, debug) {
         Ok(b) => {
             // the debug symbol table, through the public lookup by CMR of every marker in the program
             let mut syms: Vec<String> = vec![];
@@ -71,8 +79,9 @@ pub fn fingerprint(text: &str, debug: bool) -> String {
 pub fn run_child(files: &[String]) {
     for f in files {
         let text = std::fs::read_to_string(f).unwrap_or_default();
+        let args = std::fs::read_to_string(format!("{f}.args")).ok();
         for debug in [false, true] {
-            println!("FP {f} {debug} {}", fingerprint(&text, debug).replace('\n', "\\n"));
+            println!("FP {f} {debug} {}", fingerprint(&text, debug, args.as_deref()).replace('\n', "\\n"));
         }
     }
 }
@@ -84,11 +93,12 @@ pub fn run(cx: &mut Ctx) {
     let _ = std::fs::create_dir_all(&dir);
     let n: u64 = if cx.thorough { 300 } else { 24 };
     let n_procs = if cx.thorough { 16 } else { 8 };
-    let mut files: Vec<(String, String)> = vec![];
+    // (file name, program text, argument module for the programs with parameters)
+    let mut files: Vec<(String, String, Option<String>)> = vec![];
     // shipped examples (shard 0) and generated programs dense in hash-map backed tables
     if cx.shard == 0 && cx.only_case.is_none() {
         for (name, text) in example_texts().into_iter().filter(|(n, _)| n.ends_with(".simf")) {
-            files.push((name, text));
+            files.push((name, text, None));
         }
     }
     for i in cx.cases(n) {
@@ -108,26 +118,37 @@ pub fn run(cx: &mut Ctx) {
                     // a program that must be rejected, with a message
                     t = t.replacen("fn main()", "fn main(x: u8)", 1);
                 }
-                files.push((format!("gen{i}.simf"), t))
+                // programs with parameters: mostly with their arguments (as a `mod param` text the
+                // child processes parse themselves), sometimes without (instantiate must fail)
+                let args = if !p.params.is_empty() && i % 8 != 4 {
+                    cx.report.count("programs_with_arguments", 1);
+                    Some(arguments(&to_sim_map(&p.args, &p.params)).to_string())
+                } else {
+                    None
+                };
+                files.push((format!("gen{i}.simf"), t, args))
             }
             Err(e) => cx.report.harness_error(json!({"what": e})),
         }
     }
     let mut paths = vec![];
-    for (name, text) in &files {
+    for (name, text, args) in &files {
         let p = dir.join(name);
         let _ = std::fs::write(&p, text);
+        if let Some(a) = args {
+            let _ = std::fs::write(dir.join(format!("{name}.args")), a);
+        }
         paths.push(p.to_string_lossy().to_string());
     }
     // (a) repeatedly in this process
     let mut local: Vec<[String; 2]> = vec![];
-    for (name, text) in &files {
+    for (name, text, args) in &files {
         let mut fps = [String::new(), String::new()];
         for (di, debug) in [false, true].iter().enumerate() {
-            let first = fingerprint(text, *debug);
+            let first = fingerprint(text, *debug, args.as_deref());
             for _ in 0..(if cx.thorough { 20 } else { 8 }) {
                 cx.report.evaluations += 1;
-                let again = fingerprint(text, *debug);
+                let again = fingerprint(text, *debug, args.as_deref());
                 if again != first {
                     cx.report.violation(json!({"kind": "in-process", "what": format!("{name} (debug = {debug}): two compilations in one process differ"),
                         "program": text, "signature": format!("det-inproc:{:016x}", fnv64(text.as_bytes()))}));
@@ -138,11 +159,15 @@ pub fn run(cx: &mut Ctx) {
         }
         // one parsed template instantiated again and again (debug off / on alternating) must give
         // the bytes of a fresh compilation every time
+        let sim_args = {
+            use simfony::parse::ParseFromStr;
+            args.as_deref().and_then(|a| simfony::Arguments::parse_from_str(a).ok()).unwrap_or_default()
+        };
         if let Outcome::Ok(tpl) = new_template(text) {
             for round in 0..6 {
                 let debug = round % 2 == 1;
                 cx.report.evaluations += 1;
-                let got = match instantiate(&tpl, &simfony::Arguments::default(), debug) {
+                let got = match instantiate(&tpl, &sim_args, debug) {
                     Outcome::Ok(c) => match commit(&c) {
                         Outcome::Ok(info) => format!("OK {} {}", hex(&info.bytes), hex(&info.cmr)),
                         _ => "PANIC".to_string(),
@@ -198,7 +223,7 @@ pub fn run(cx: &mut Ctx) {
     match simc {
         None => cx.report.harness_error(json!({"what": "VERIF_SIMC not set"})),
         Some(simc) => {
-            for (idx, (name, text)) in files.iter().enumerate() {
+            for (idx, (name, text, args)) in files.iter().enumerate() {
                 for (di, debug) in [false, true].iter().enumerate() {
                     if cx.out_of_time() {
                         break;
@@ -215,7 +240,14 @@ pub fn run(cx: &mut Ctx) {
                     cx.report.evaluations += 1;
                     let stdout = String::from_utf8_lossy(&out.stdout).to_string();
                     let stderr = String::from_utf8_lossy(&out.stderr).to_string();
-                    let fp = &local[idx][di];
+                    // simc takes no arguments: compare with the library called without any
+                    let without_args;
+                    let fp = if args.is_some() {
+                        without_args = fingerprint(text, *debug, None);
+                        &without_args
+                    } else {
+                        &local[idx][di]
+                    };
                     let sig = format!("simc:{:016x}:{debug}", fnv64(text.as_bytes()));
                     let problem: Option<String> = if let Some(rest) = fp.strip_prefix("OK ") {
                         let bytes_hex = rest.split(' ').next().unwrap_or("");
@@ -253,7 +285,7 @@ pub fn run(cx: &mut Ctx) {
         }
     }
     if cx.report.samples.is_empty() {
-        if let Some((name, text)) = files.last() {
+        if let Some((name, text, _)) = files.last() {
             cx.report.sample(json!({"file": name, "program": text.chars().take(500).collect::<String>(),
                 "fingerprint": local.last().map(|l| l[1].chars().take(160).collect::<String>())}));
         }
